@@ -400,4 +400,125 @@ example : (unfold Walker.addStmts (.decl (.funcDecl (some (4, 4, [.ret 4 14 4 []
 example : (unfold Walker.addStmts (.decl (.funcDecl none))).map (expandD (fun _ => true)) = some [] := by
   rw [addStmts_is_declEvents]; rfl
 
+/-! ## the two passes over the initialisers of global value specs -/
+
+def isLit : GExpr → Bool
+  | .funcLit .. => true
+  | _ => false
+
+mutual
+theorem outerG_lits : ∀ (e : GExpr), ∀ g ∈ outerG e, isLit g = true
+  | .funcLit p e lb rb list, g, h => by simp [outerG] at h; subst h; rfl
+  | .call _ _ fn args, g, h => by
+    simp only [outerG, List.mem_append] at h
+    rcases h with h | h
+    · exact outerG_lits fn g h
+    · exact outerGs_lits args g h
+  | .composite _ _ typ elts, g, h => by
+    simp only [outerG, List.mem_append] at h
+    rcases h with h | h
+    · exact outerGo_lits typ g h
+    · exact outerGs_lits elts g h
+  | .keyValue _ _ k v, g, h => by
+    simp only [outerG, List.mem_append] at h
+    rcases h with h | h
+    · exact outerG_lits k g h
+    · exact outerG_lits v g h
+  | .unary _ _ x, g, h => by simp only [outerG] at h; exact outerG_lits x g h
+  | .structType _ _ fts, g, h => by simp only [outerG] at h; exact outerGs_lits fts g h
+  | .other _ _ cs, g, h => by simp only [outerG] at h; exact outerGs_lits cs g h
+theorem outerGo_lits : ∀ (o : Option GExpr), ∀ g ∈ outerGo o, isLit g = true
+  | none, g, h => by simp [outerGo] at h
+  | some e, g, h => by simp only [outerGo] at h; exact outerG_lits e g h
+theorem outerGs_lits : ∀ (es : List GExpr), ∀ g ∈ outerGs es, isLit g = true
+  | [], g, h => by simp [outerGs] at h
+  | e :: r, g, h => by
+    simp only [outerGs, List.mem_append] at h
+    rcases h with h | h
+    · exact outerG_lits e g h
+    · exact outerGs_lits r g h
+end
+
+mutual
+theorem outerE_abstr : ∀ (e : GExpr), outerE (abstrE e) = (outerG e).map abstrE
+  | .funcLit p e lb rb list => by simp [abstrE, outerE, outerG]
+  | .call _ _ fn args => by
+    simp only [abstrE, outerE, outerG, outerEs, List.append_nil, List.map_append, outerE_abstr fn, outerEs_abstr args]
+  | .composite _ _ typ elts => by
+    simp only [abstrE, outerE, outerG, List.map_append, outerEo_abstr typ, outerEs_abstr elts]
+  | .keyValue _ _ k v => by
+    simp only [abstrE, outerE, outerG, outerEs, List.append_nil, List.map_append, outerE_abstr k, outerE_abstr v]
+  | .unary _ _ x => by simp only [abstrE, outerE, outerG, outerEs, List.append_nil, outerE_abstr x]
+  | .structType _ _ fts => by simp only [abstrE, outerE, outerG, outerEs_abstr fts]
+  | .other _ _ cs => by simp only [abstrE, outerE, outerG, outerEs_abstr cs]
+theorem outerEo_abstr : ∀ (o : Option GExpr), outerEs (abstrOE o) = (outerGo o).map abstrE
+  | none => by simp [abstrOE, outerEs, outerGo]
+  | some e => by simp only [abstrOE, outerEs, outerGo, List.append_nil, outerE_abstr e]
+theorem outerEs_abstr : ∀ (es : List GExpr), outerEs (abstrEs es) = (outerGs es).map abstrE
+  | [] => by simp [abstrEs, outerEs, outerGs]
+  | e :: r => by simp only [abstrEs, outerEs, outerGs, List.map_append, outerE_abstr e, outerEs_abstr r]
+end
+
+/-- the FuncLit arm of `processGlobalValueSpecs` on one literal: the single-line test on the body
+    braces, else the statement walk -/
+theorem globalSpecs_arm (g : GExpr) (hg : isLit g = true) :
+    ∃ is b, evalL ⟨.expr g, []⟩ Walker.processGlobalValueSpecs.arm = some (is, b) ∧ expand is = globalLitEvents (abstrE g) := by
+  cases g with
+  | funcLit p e lb rb list =>
+    cases list with
+    | nil =>
+      exact ⟨[], true, by simp [Walker.processGlobalValueSpecs, evalL, evalA, evalC, Ctx.resolve, resolveFrom, GVal.get, getE,
+        GVal.nonNil, GVal.len], by simp [expand, abstrE, firstPos, globalLitEvents]⟩
+    | cons s0 ss =>
+      by_cases h : lb = rb
+      · have hb : (lb == rb) = true := by simp [h]
+        exact ⟨[.ev (.single s0.line s0.col)], true, by
+          simp [Walker.processGlobalValueSpecs, evalL, evalA, evalC, Ctx.resolve, resolveFrom, GVal.get, getE, GVal.nonNil,
+            GVal.len, GVal.tokLine, hb], by simp [expand, expandItem, abstrE, firstPos, globalLitEvents, hb]⟩
+      · have hb : (lb == rb) = false := by simp [h]
+        exact ⟨[.recS (s0 :: ss)], false, by
+          simp [Walker.processGlobalValueSpecs, evalL, evalA, evalC, Ctx.resolve, resolveFrom, GVal.get, getE, GVal.nonNil,
+            GVal.len, GVal.tokLine, hb], by simp [expand, expandItem, abstrE, firstPos, globalLitEvents, hb]⟩
+  | _ => simp [isLit] at hg
+
+/-- the FuncLit arm of `processGlobalFunctionLit` on one literal: the control pass over its body -/
+theorem globalLits_arm (ch : Nat → Bool) (g : GExpr) (hg : isLit g = true) :
+    ∃ is b, evalL ⟨.expr g, []⟩ Walker.processGlobalFunctionLit.arm = some (is, b) ∧ expandD ch is = globalLitCtl ch (abstrE g) := by
+  cases g with
+  | funcLit p e lb rb list =>
+    exact ⟨[.recCtl list], false, by
+      simp [Walker.processGlobalFunctionLit, evalL, evalA, evalC, Ctx.resolve, resolveFrom, GVal.get, getE, GVal.nonNil],
+      by simp [expandD, expandItemD, abstrE, globalLitCtl]⟩
+  | _ => simp [isLit] at hg
+
+theorem litPassOn_spec (acts : List Act) (ex : List Item → List Ev) (f : Expr → List Ev)
+    (hex : ∀ a b, ex (a ++ b) = ex a ++ ex b) (hnil : ex [] = [])
+    (harm : ∀ g, isLit g = true → ∃ is b, evalL ⟨.expr g, []⟩ acts = some (is, b) ∧ ex is = f (abstrE g)) :
+    ∀ (l : List GExpr), (∀ g ∈ l, isLit g = true) →
+      ∃ is, litPassOn acts l = some is ∧ ex is = (l.map abstrE).flatMap f := by
+  intro l
+  induction l with
+  | nil => intro _; exact ⟨[], rfl, by simp [hnil]⟩
+  | cons g r ih =>
+    intro hl
+    obtain ⟨is, b, h1, h2⟩ := harm g (hl g (by simp))
+    obtain ⟨js, h3, h4⟩ := ih (fun x hx => hl x (by simp [hx]))
+    exact ⟨is ++ js, by simp [litPassOn, h1, h3], by simp [hex, h2, h4]⟩
+
+/-- **`processGlobalValueSpecs`, as translated from the source**, yields the model's events of the
+    outermost function literals of the value specs' initialisers -/
+theorem processGlobalValueSpecs_is_model (specs : List GSpec) :
+    ∃ is, litPass Walker.processGlobalValueSpecs specs = some is ∧
+      expand is = (outerEs (abstrEs (specValues specs))).flatMap globalLitEvents := by
+  rw [outerEs_abstr]
+  exact litPassOn_spec _ expand globalLitEvents expand_append rfl globalSpecs_arm _ (outerGs_lits _)
+
+/-- **`processGlobalFunctionLit`, as translated from the source**, runs the control pass over the body
+    of every outermost function literal -/
+theorem processGlobalFunctionLit_is_model (ch : Nat → Bool) (specs : List GSpec) :
+    ∃ is, litPass Walker.processGlobalFunctionLit specs = some is ∧
+      expandD ch is = (outerEs (abstrEs (specValues specs))).flatMap (globalLitCtl ch) := by
+  rw [outerEs_abstr]
+  exact litPassOn_spec _ (expandD ch) (globalLitCtl ch) (by intro a b; simp [expandD]) rfl (globalLits_arm ch) _ (outerGs_lits _)
+
 end GoatSpec.WalkerTie
